@@ -201,6 +201,16 @@ struct lyd_ctx_ext_node {
 void lyd_ctx_free(struct lyd_ctx *ctx);
 
 /**
+ * @brief Forget all the nodes of a subtree stored in the parser context for later validation
+ * (unresolved types, when, metadata, extension data). To be called before a parsed subtree is freed
+ * while the parsing continues (multi-error validation).
+ *
+ * @param[in] lydctx Data parser context.
+ * @param[in] root Root of the subtree that is going to be freed.
+ */
+void lyd_ctx_forget_subtree(struct lyd_ctx *lydctx, const struct lyd_node *root);
+
+/**
  * @brief Parse submodule from YANG data.
  * @param[in,out] context Parser context.
  * @param[in] ly_ctx Context of YANG schemas.
